@@ -16,7 +16,7 @@ pub struct SimCtx {
     pub world: World,
 }
 
-/// Parsed `x-sim` header: `nonce;steps;step_ms;panic_at;resp_bytes`.
+/// Parsed `x-sim` header: `nonce;steps;step_ms;panic_at;resp_bytes[;flags]`.
 #[derive(Clone, Copy, Debug, Default)]
 pub struct SimHdr {
     pub nonce: u64,
@@ -24,6 +24,8 @@ pub struct SimHdr {
     pub step_ms: u64,
     pub panic_at: u32,
     pub resp_bytes: usize,
+    /// bit 0: the handler drops its RequestContext before it starts working
+    pub flags: u32,
 }
 
 pub fn parse_sim(headers: &http::HeaderMap) -> SimHdr {
@@ -35,6 +37,7 @@ pub fn parse_sim(headers: &http::HeaderMap) -> SimHdr {
         h.step_ms = it.next().and_then(|x| x.trim().parse().ok()).unwrap_or(0);
         h.panic_at = it.next().and_then(|x| x.trim().parse().ok()).unwrap_or(0);
         h.resp_bytes = it.next().and_then(|x| x.trim().parse().ok()).unwrap_or(0);
+        h.flags = it.next().and_then(|x| x.trim().parse().ok()).unwrap_or(0);
     }
     h
 }
